@@ -550,6 +550,29 @@ func genFor(t *rapid.T, forCLI bool) Case {
 	default:
 		filter = pick("f1") + "," + pick("f2") + "," + pick("f3")
 	}
+	// seventh seed batch: a type declared by two records (the same class in two source roots or modules, as the
+	// front end lists it): the relations of the type are those of all its records. One record is split in two:
+	// the copy, put somewhere behind it, takes over a part of the relations.
+	if n := len(m.Classes); n > 0 && rapid.IntRange(0, 7).Draw(t, "typeInTwoRecords") == 7 {
+		i := rapid.IntRange(0, n-1).Draw(t, "splitRecord")
+		orig := &m.Classes[i]
+		dup := mgen.Class{Pkg: orig.Pkg, Name: orig.Name, Type: orig.Type}
+		how := rapid.IntRange(0, 3).Draw(t, "splitHow")
+		if how == 0 || how == 3 {
+			dup.Extend, orig.Extend = orig.Extend, ""
+		}
+		if how == 1 || how == 3 {
+			dup.Implements, orig.Implements = orig.Implements, nil
+			dup.FieldCalls, orig.FieldCalls = orig.FieldCalls, nil
+		}
+		if how >= 2 && len(orig.Methods) > 0 {
+			k := rapid.IntRange(0, len(orig.Methods)-1).Draw(t, "splitMethodsAt")
+			dup.Methods = append([]mgen.Method{}, orig.Methods[k:]...)
+			orig.Methods = orig.Methods[:k:k]
+		}
+		at := rapid.IntRange(i+1, n).Draw(t, "splitCopyAt")
+		m.Classes = append(m.Classes[:at:at], append([]mgen.Class{dup}, m.Classes[at:]...)...)
+	}
 	c := Case{Model: m, Identifiers: ids, Filter: filter, MergeHeader: mergeHeader, MergePackage: mergePackage}
 	if rapid.IntRange(0, 2).Draw(t, "secondFilter") > 0 {
 		c.Filter2 = pick("g1")
